@@ -96,6 +96,25 @@ def find_matches(f, enum_name):
     return [m for m in f['matches'] if any(re.search(rf'\b{enum_name}::', v) or v.startswith(f'{enum_name}::') for a in m['arms'] for v in a['variants'])]
 
 
+def flows(ctx, f, enum_name, variant, pos, callees, uses_ok=False):
+    """Dataflow form of "the payload is handed to a callee": in the inlined view of f (local helpers expanded) some call
+    to one of `callees`, made under the arm of this variant, has an argument (or receiver) whose value derives from the
+    payload position `pos` of `enum_name::variant` — directly, as a loop element, or through an iterator adaptor."""
+    v = ctx.x(f)
+    full = f'{enum_name}::{variant}'
+    for c in v['calls']:
+        nm = str(c.get('f') or '').split('::')[-1]
+        if nm not in callees and not (uses_ok and nm):
+            continue
+        if not any(fr.get('k') == 'arm' and any(full in str(x) for x in fr.get('variants', [])) for fr in c.get('guard', [])):
+            continue
+        vals = list(c.get('args', [])) + ([c['recv']] if c.get('recv') is not None else [])
+        for x in (y for val in vals for y in vt.walk(val)):
+            if x.get('k') == 'payload' and str(x.get('variant', '')).endswith(full) and (str(x.get('field')) == str(pos) or str(x.get('pos')) == str(pos)):
+                return True
+    return False
+
+
 def check_recursion(rep, rule, ctx, f, enum_name, callees, label, needle='RustType', uses_ok=False):
     """Every payload-carrying variant of `enum_name` has an explicit arm in f's match over it, in which every
     type-carrying payload is bound and handed to one of `callees` (or, with uses_ok, at least used)."""
@@ -128,6 +147,8 @@ def check_recursion(rep, rule, ctx, f, enum_name, callees, label, needle='RustTy
                     problems.append(f"payload `{pos}` is not bound (`_`/`..`)")
                     continue
                 body = a['body']
+                if flows(ctx, f, enum_name, variant, pos, callees, uses_ok):
+                    continue
                 called = any(re.search(rf'\b{re.escape(c)}\s*\((?:[^;{{}}]|\{{[^{{}}]*\}})*\b{name}\b', body) or re.search(rf'\b{name}\s*(?:\.\s*(?:as_ref|deref|as_mut)\s*\(\s*\)\s*)?\.\s*{re.escape(c)}\s*\(', body) for c in callees)
                 if not called:
                     # the payload may be a collection that is iterated, its elements going to the callee
